@@ -145,8 +145,10 @@ static int line_to_instr(struct instr *instr_data, char *filtered_asm_str) {
       IN_RANGE(instr_data->cons, NEG32BIT + 1, NEG64BIT))
     instr_data->cons &= MAX_UNSIGNED_32BIT;
   // xbegin takes a rel32 as well
+  // (also when it is written as a 32-bit two's complement number)
   if (NAME(instr_data->key, xbegin) &&
-      IN_RANGE(instr_data->cons, NEG32BIT + 1, NEG64BIT)) {
+      (IN_RANGE(instr_data->cons, NEG32BIT + 1, NEG64BIT) ||
+       IN_RANGE(instr_data->cons, NEG32BIT_CHECK, MAX_UNSIGNED_32BIT))) {
     DO_NOT_PAD(instr_data->cons, instr_data->reduced_imm, MAX_UNSIGNED_32BIT);
   }
   // encode for the reg_hex value and op_offset for instruction
